@@ -1,4 +1,5 @@
 import BridgeVerif.Lemmas.SessionC08
+import BridgeVerif.Lemmas.MainThread
 /-!
 # C08 — The table manager's log records exactly what was played
 
@@ -83,5 +84,17 @@ theorem record_follows_rules (sc : Scenario) (b : BoardSetting) (d : Decisions)
   intro decl i hd hf
   rw [hcon] at hd hf ⊢
   exact record_rules sc b d hc hp decl i hd hf
+
+/-- **The main thread as the code writes it.**  `mainReactive` (Model/MainThread.lean) is `Server.run` / `deal` /
+`bidding_phase` / `playing_phase` written the way the Python is: it asks the seat on turn, PARSES the text it receives
+(`remove_alert_word`, `parse_bid`, `parse_card`), runs its own auction and its own full-information play, raises on an
+illegal / unparseable / not-held action, relays, and assembles the record from what it parsed.  Fed the messages the seat
+threads forward in a session with conforming players whose texts mean what they decided, it performs exactly the program
+of the session model — so the records it writes ARE `recordOf`, i.e. (by `record_follows_rules`) what the rules say -/
+theorem main_thread_follows_the_messages (sc : Scenario) (h : sc.boards ≠ [])
+    (hc : ∀ bd ∈ sc.boards, ConformingAuction bd.1 bd.2 ∧ ConformingPlay bd.1 bd.2 ∧ TextsConform bd.1 bd.2) :
+    mainReactive sc (sc.boards.map (·.1)) (fun p => sendsOn (Chan.t2m p) (sessionProg sc (.seat p)))
+      = some (sessionProg sc .main) :=
+  mainReactive_session sc h hc
 
 end Bridge.C08
